@@ -383,6 +383,45 @@ fn names_that_come_back(acc: &mut Acc) {
     one(acc, "control_other_constructor", Shape::Dot);
     one(acc, "tuple_variant_last_element_replaced", Shape::Circle(1, 2, 99));
     one(acc, "optional_field_removed_and_added_again", Ticket { id: 1, note: Some(99) });
+    // … and the re-added field made optional later: the writer must describe the step by the field's position, not
+    // take the name for a removed one
+    #[derive(BinaryCodec, Debug, PartialEq, Clone)]
+    #[evolution(FieldRemoved("x"), FieldAdded("x", Some(5u8)), FieldMadeOptional("x"))]
+    struct ReusedThenOptional {
+        a: u8,
+        x: Option<u8>,
+    }
+    #[derive(BinaryCodec, Debug, PartialEq, Clone)]
+    #[evolution(FieldMadeTransient("x"), FieldAdded("x", Some(5u8)), FieldMadeOptional("x"))]
+    struct TransientThenOptional {
+        a: u8,
+        x: Option<u8>,
+    }
+    #[derive(BinaryCodec, Debug, PartialEq, Clone)]
+    enum ReusedInVariant {
+        #[evolution(FieldRemoved("field0"), FieldAdded("field0", None), FieldMadeOptional("field0"))]
+        A(Option<String>),
+    }
+    #[derive(BinaryCodec, Debug, PartialEq, Clone)]
+    #[evolution(FieldAdded("y", Some(5u8)), FieldMadeOptional("y"))]
+    struct FreshThenOptional {
+        a: u8,
+        y: Option<u8>,
+    }
+    one(acc, "control_fresh_name_made_optional", FreshThenOptional { a: 1, y: Some(2) });
+    one(acc, "reused_name_made_optional", ReusedThenOptional { a: 1, x: Some(2) });
+    one(acc, "reused_name_after_transient_made_optional", TransientThenOptional { a: 1, x: Some(2) });
+    one(acc, "reused_positional_name_made_optional", ReusedInVariant::A(Some("hi".into())));
+    // the header of the reused-name record must be the one of the fresh-name record, name apart
+    let a = desert::serialize_to_byte_vec(&ReusedThenOptional { a: 1, x: Some(2) });
+    acc.case(Some(0x4ead));
+    match a {
+        Ok(bytes) if bytes == [3u8, 2, 3, 2, b'x', 4, 1, 2, 1, 1, 2] => acc.count("names:reused_name_made_optional:header_as_the_format_prescribes"),
+        other => acc.violation(
+            "C02|name_comes_back|reused_name_made_optional|header_bytes".to_string(),
+            J::obj().with("check", J::s("C02")).with("mode", J::s("content")).with("expected", J::s("03 02 03 02 78 04 01 02 01 01 02")).with("got", J::s(format!("{other:?}"))),
+        ),
+    }
 }
 
 pub fn c02(ctx: &mut Ctx, acc: &mut Acc) -> i32 {
